@@ -9,8 +9,8 @@
       "Triangle3D::new refused a child" -- comes with M' = M: after the pre-checks every push of the step succeeds.
       split_edge needs the neighbour across the split edge to be live and distinct ([NeiLive]; the code does not check);
     - on a structurally sound mesh ([WF], [CNT], [LNK] = every neighbour index of a live slot names a live slot) the
-      residue shrinks to Panic 64 (coordinate comparison in mark_as_neighbours) -- plus Err 102 for flip_diagonal when
-      the two triangles are linked across more than one edge ([..._partial]) -- and Ok re-establishes WF, CNT, LNK
+      residue shrinks to Panic 64 (coordinate comparison in mark_as_neighbours) -- plus, WITHOUT the link geometry, Err 102
+      for flip_diagonal (excluded under [GEO]: [C08_flip_struct] in Properties/C08_links.v) -- and Ok re-establishes WF, CNT, LNK
       (split_triangle: LNK up to links to the split slot, which mark_as_neighbours overwrites only geometrically);
     - add_point (whose Err [refine] swallows) inherits it.
     LIVE TRIANGLES: what each step returning Ok does to the multiset of live triangles, by vertices.
@@ -19,8 +19,9 @@
     by flip_diagonal when the neighbour holds the flipped edge exactly and reversed ([flip_shared]), by split_edge when
     the point is on the line (area) / strictly inside (coverage; ray avoiding the point) the edge in each hemisphere;
     hence along histories of such steps, restore_delaunay and add_point included.  Orientation: children stay positive.
-    PARTIAL: [flip_shared] is the geometric half of clause (i) and is a HYPOTHESIS here (an invariant [Inv] for
-    restore_delaunay); [refine] is not covered by the history theorems; the model's own location test
+    In THIS file [flip_shared] / [split_edge_ok] are hypotheses of the single-step theorems; Properties/C08_links.v proves that they
+    follow from the link-geometry invariant [GEO], which the steps preserve, and states restore_delaunay and the histories without
+    any invariant hypothesis.  [refine] is not covered by the history theorems; the model's own location test
     ([tri_test_point], tolerance 100 eps) does NOT imply the exact on-edge hypothesis ([C08_located_on_edge_is_not_exact]). *)
 From Coq Require Import ZArith Reals List Permutation Floats Lra.
 Set Warnings "-inexact-float".
@@ -63,12 +64,8 @@ Theorem C08_split_edge_struct : forall (K : Type) (NK : Num K) (i : nat) (e : Ed
   WF M -> CNT M -> LNK M -> split_edge i e p M = (M', r) ->
   (r = Ok tt /\ WF M' /\ CNT M' /\ LNK M') \/ M' = M \/ r = Panic 64%N.
 Proof. exact (fun K NK => @split_edge_struct K NK). Qed.
-(** PARTIAL: Err 102 ("a triangle as its own neighbour") remains possible when the two triangles are linked across
-    more than one edge; excluding it needs the geometric reading of the links (which edge [edge_of_points] finds). *)
-Theorem C08_flip_struct_partial : forall (K : Type) (NK : Num K) (i : nat) (e : Edge) (M M' : Mesh K) (r : res unit),
-  WF M -> CNT M -> LNK M -> flip_diagonal i e M = (M', r) ->
-  (r = Ok tt /\ WF M' /\ CNT M' /\ LNK M') \/ M' = M \/ r = Panic 64%N \/ r = Err 102%N.
-Proof. exact (fun K NK => @flip_struct K NK). Qed.
+(** flip_diagonal: see [C08_flip_struct] in Properties/C08_links.v (with the link geometry Err 102 is excluded; without it:
+    Proofs/Mesh_atomic.v [flip_struct] keeps it as a possible residue) *)
 Theorem C08_restore_delaunay_sound : forall (K : Type) (NK : Num K) (m : K) (M M' : Mesh K),
   Sound M -> restore_delaunay m M = (M', Ok tt) -> Sound M'.
 Proof. exact (fun K NK => @restore_sound K NK). Qed.
@@ -171,26 +168,8 @@ Theorem C08_region_add_point_cover : forall (o e1 e2 : V3 R) (p : V3 R) (M M' : 
   mesh_cover o e1 e2 d M' q = mesh_cover o e1 e2 d M q.
 Proof. exact region_add_point_cover. Qed.
 
-(** PARTIAL: restore_delaunay and histories, relative to an invariant [Inv] that provides [flip_shared] and survives a
-    flip (the geometric half of clause (i), not proved preserved: see C08_mesh.v); [refine] steps are excluded. *)
-Theorem C08_region_restore_delaunay_partial : forall (o e1 e2 : V3 R) (Inv : Mesh R -> Prop),
-  (forall M i e, Inv M -> flip_shared M i e) ->
-  (forall M i e M', Inv M -> flip_diagonal i e M = (M', Ok tt) -> Inv M') ->
-  forall (m : R) (M M' : Mesh R), Inv M -> restore_delaunay m M = (M', Ok tt) -> Inv M' /\ Same o e1 e2 M M'.
-Proof. exact region_restore. Qed.
-Theorem C08_region_history_area_partial : forall (o e1 e2 : V3 R) (Inv : Mesh R -> Prop),
-  (forall M i e, Inv M -> flip_shared M i e) ->
-  (forall M i e M', Inv M -> flip_diagonal i e M = (M', Ok tt) -> Inv M') ->
-  forall (ops : list (mop R)) (M : Mesh R),
-    good_run Inv on_line (fun _ => True) M ops -> mesh_area2 o e1 e2 (fst (mesh_run M ops)) = mesh_area2 o e1 e2 M.
-Proof. exact region_history_area. Qed.
-Theorem C08_region_history_cover_partial : forall (o e1 e2 : V3 R) (Inv : Mesh R -> Prop),
-  (forall M i e, Inv M -> flip_shared M i e) ->
-  (forall M i e M', Inv M -> flip_diagonal i e M = (M', Ok tt) -> Inv M') ->
-  forall (d q : P2) (ops : list (mop R)) (M : Mesh R),
-    good_run Inv between (fun p => hgt d q (C05_pointtest.plane2 o e1 e2 p) <> 0%R) M ops ->
-    mesh_cover o e1 e2 d (fst (mesh_run M ops)) q = mesh_cover o e1 e2 d M q.
-Proof. exact region_history_cover. Qed.
+(** restore_delaunay and histories: [C08_region_restore_delaunay], [C08_region_history_area], [C08_region_history_cover] in
+    Properties/C08_links.v (no invariant hypothesis: the link geometry [GEO] is preserved by the steps) *)
 
 (** ** Orientation *)
 Theorem C08_orientation_split_triangle : forall (o e1 e2 : V3 R) (i : nat) (p : V3 R) (M M' : Mesh R),
